@@ -9,6 +9,11 @@
 // which value?) is compared with a naive linear reference written from the
 // property statement (ref.go). Where the statement leaves a choice open the
 // reference yields a set of allowed values.
+//
+// Two composed phases follow the basic routes: configuration documents read by
+// coremain.NewMosdns in every spelling (cfg.go, yamlgen.go) and rule sources of
+// every length class / line-end convention / reader behaviour (src.go); see the
+// comments at the top of those files. phases.go runs them.
 package main
 
 import (
@@ -24,6 +29,7 @@ import (
 	"strconv"
 	"strings"
 	"sync"
+	"time"
 
 	"github.com/IrineSistiana/mosdns/v5/coremain"
 	"github.com/IrineSistiana/mosdns/v5/pkg/hosts"
@@ -470,6 +476,9 @@ func (b *builder) build() []target {
 type stats struct {
 	c  map[string]int64
 	fp map[string]struct{}
+
+	wantSample bool // composed phases: the next case leaves a written-out sample here
+	sample     any
 }
 
 func newStats() *stats                 { return &stats{c: map[string]int64{}, fp: map[string]struct{}{}} }
@@ -778,10 +787,13 @@ func targetNames(ts []target) []string {
 
 func main() {
 	rep = evid.New("C12", "exploration")
-	rep.SetRule("case = (rule set, probe name, route); rule sets: 1-10 (sometimes up to 41) rules of the four types over the label alphabet {a b ab ba a-b xn--a com c}, derived from 1-3 pool names (itself, suffixes, +label, glued/unglued first char), random case, optional trailing dot, duplicates with other values, random default type and prefix omission; regexps from a small RE2-safe grammar; probe names = every rule +/- one label, +/- one char, one char replaced, in random case with/without trailing dot, plus random names; routes = MixMatcher.Add, its sub-matchers, standalone sub-matchers, text loader with/without values, domain_set plugin (exps+file+nested set), hosts Lookup, hosts plugin LookupMsg, redirect plugin, and per rule set one random DAG of 3-11 domain_set plugins (own exps/files or sets only, 1-8 included sets, shared included sets) built in dependency order and probed only after all are built, each against the union of its own and transitively included rules. non-trivial = at least one rule describes the name or the name is a near miss (non-boundary suffix, parent of a rule, subdomain of a full rule, rule is a prefix); distinct = (rule set, set of matching types, deciding type, number of matching domain depths, near-miss class), plus (topology, plugin) for every plugin that includes other sets")
+	rep.SetRule("case = (rule set, probe name, route); rule sets: 1-10 (sometimes up to 41) rules of the four types over the label alphabet {a b ab ba a-b xn--a com c}, derived from 1-3 pool names (itself, suffixes, +label, glued/unglued first char), random case, optional trailing dot, duplicates with other values, random default type and prefix omission; regexps from a small RE2-safe grammar; probe names = every rule +/- one label, +/- one char, one char replaced, in random case with/without trailing dot, plus random names; routes = MixMatcher.Add, its sub-matchers, standalone sub-matchers, text loader with/without values, domain_set plugin (exps+file+nested set), hosts Lookup, hosts plugin LookupMsg, redirect plugin, and per rule set one random DAG of 3-11 domain_set plugins (own exps/files or sets only, 1-8 included sets, shared included sets) built in dependency order and probed only after all are built, each against the union of its own and transitively included rules. non-trivial = at least one rule describes the name or the name is a near miss (non-boundary suffix, parent of a rule, subdomain of a full rule, rule is a prefix); distinct = (rule set, set of matching types, deciding type, number of matching domain depths, near-miss class), plus (topology, plugin) for every plugin that includes other sets. CONFIG PHASE: case = one configuration document (YAML written by an own emitter, JSON, or the decoded map) read by coremain.NewMosdns (viper include + plugin args decoder) with 1-3 domain_set plugins (exps/files/sets), hosts (entries/files), redirect (rules/files) and a sequence whose rule is a 'qname exp.. $set &file' matcher; every list option in a random spelling (block list, flow list, or one element as a bare scalar; scalars plain / single quoted / double quoted with escapes / literal block; omitted / null / [] when empty); 6-15 rules, regular expressions mostly from a grammar with counted repetitions {m,n}, classes and optional atoms containing , : # space { } [ ] quotes backslash & * ! | > % @; tags and file names with such characters; every plugin probed against the reference over exactly the rules written for it (own + included sets); non-trivial = (document, plugin, deciding type). SOURCE PHASE: case = a rule set written as text whose lines are made long (classes around 4/8/16/32 KiB, 65534..65538, up to 200 KB) by comments, trailing comments, leading/trailing/inner blanks, blank-only lines, a long regexp or literal rule, or which has thousands of short lines; LF / CRLF / CR CR LF ends, last line with/without terminator, bare CR inside comments, bare-CR files; loaded by LoadFromTextReader with and without values through readers that deliver it whole, in chunks (1..100000 bytes, empty reads, data+EOF) or fail with a non-EOF error at a line start / random offset / instead of EOF, and through the file options of domain_set, hosts, redirect and qname; verdict: refused (only allowed if the reader failed or a line has >= 65535 bytes) or answers every probe like the reference over ALL rules of the source; non-trivial = (source, route, outcome)")
 	rep.Assume("Go's regexp package is the definition of 'match by Go regular expression' (used by the reference, on the normalised name, with the expression exactly as written)")
 	rep.Assume("generated rules and names are ASCII; lower-casing in the reference is ASCII lower-casing")
 	rep.Assume("empty patterns ('domain:.', 'keyword:.') and names with empty labels are outside the quantified space and not generated; unprefixed rules never contain ':'")
+
+	rep.Assume("config phase: gopkg.in/yaml.v3 (the parser viper uses) defines what a YAML document means; every generated document is parsed back with it and compared with the intended tree before mosdns sees it")
+	rep.Assume("source phase: a rule source is a sequence of LF-terminated lines (a CR before the LF and any blanks around a rule are not part of it, text after '#' is a comment); a source whose longest line has >= 65535 bytes may be refused as a whole, every other valid source read without error must load; a bare-CR file that is not a rule source under these semantics is not judged when accepted")
 
 	// rule files for the plugin routes; inside the driver's scratch dir if there is one
 	dir, err := os.MkdirTemp(os.Getenv("VERIF_TMP"), "c12-")
@@ -810,12 +822,11 @@ func main() {
 				run = runSrcCase
 			}
 			fs, bug := runGuarded(run, c.CaseSeed, dir, st)
+			o := &phaseOut{best: map[string]*phaseWitness{}, bug: bug}
 			for _, f := range fs {
-				rep.Violation(f.Key, f.What, f.Case)
+				o.best[f.Key] = &phaseWitness{f: f, n: 1}
 			}
-			if bug != "" {
-				rep.Inconclusive("harness self-check failed: %s", bug)
-			}
+			o.report(c.Phase)
 			rep.Eval(int(st.c["evaluations"]))
 			for k := range st.fp {
 				rep.Nontrivial(k)
@@ -839,6 +850,7 @@ func main() {
 		rep.Finish()
 	}
 
+	t0 := time.Now()
 	nSets := rep.Pick(16000, 600000)
 	nProbes := rep.Pick(150, 200)
 	master := rand.New(rand.NewSource(rep.Seed))
@@ -919,10 +931,15 @@ func main() {
 		}()
 	}
 	wg.Wait()
+	tBase := time.Since(t0)
 
 	// composed routes: configuration documents and rule sources (cfg.go, src.go)
-	cfgOut := runPhase("cfg", rep.Pick(2600, 60000), rep.Seed^0x636667, workers, dir, runCfgCase)
-	srcOut := runPhase("src", rep.Pick(1100, 25000), rep.Seed^0x737263, workers, dir, runSrcCase)
+	cfgOut := runPhase("cfg", rep.Pick(6000, 80000), rep.Seed^0x636667, workers, dir, runCfgCase)
+	tCfg := time.Since(t0) - tBase
+	srcOut := runPhase("src", rep.Pick(3000, 30000), rep.Seed^0x737263, workers, dir, runSrcCase)
+	rep.Extra("config_phase_sample", cfgOut.sample)
+	rep.Extra("source_phase_sample", srcOut.sample)
+	rep.Extra("phase_wall_seconds", map[string]float64{"basic_routes": tBase.Seconds(), "config_documents": tCfg.Seconds(), "rule_sources": (time.Since(t0) - tBase - tCfg).Seconds()})
 	cleanup()
 
 	var ws []*witness
